@@ -275,9 +275,14 @@ def _last_vf_frame(tb):
 
 def run_check(ob, ctx, case):
     """Run ob.check; translate exceptions raised inside bob.learn.em into Violations."""
+    from vf import guard
+
     ctx.begin(case)
+    guard.install()
+    guard.reset()
     try:
-        ob.check(ctx, case)
+        with guard.watchdog():
+            ob.check(ctx, case)
     except (Violation, HypothesisException, _ReplayDiscard):
         raise
     except Exception as e:  # noqa: BLE001
@@ -328,6 +333,18 @@ def run_obligation_shard(prop_id, ob_name, tier, base_seed, shard, n_examples, b
         except Violation as v:
             v.case = case
             state["last"] = v
+            raise
+        except BaseException as e:  # noqa: BLE001
+            if type(e).__name__ == "CaseTimeout":
+                # inconclusive, not a violation: keep the case so that it can be looked at
+                try:
+                    d = os.path.join(VERIF_DIR, "replays", prop_id, "found")
+                    os.makedirs(d, exist_ok=True)
+                    with open(os.path.join(d, "inconclusive-%s-%s.json" % (ob_name, cases.case_hash(case)[:12])), "w") as f:
+                        json.dump({"property": prop_id, "obligation": ob_name, "message": str(e), "class": "inconclusive:timeout",
+                                   "detail": None, "case": cases.encode(case)}, f, indent=1, sort_keys=True)
+                except Exception:  # noqa: BLE001
+                    pass
             raise
 
     sett = settings(
